@@ -180,12 +180,13 @@ theorem Sys.commit_ext (s : Sys) (t : Txn) (nu : Nu) (h : TStep { catalog := s.c
 theorem Sys.commit_clean (s : Sys) (t : Txn) (nu : Nu) (h : t.dirty = false) : (s.commit t nu).catalog = s.catalog := by
   simp [Sys.commit, h]
 
-/-- every successful driver call extends the oplog by appended events only -/
-theorem Sys.step_ext (sch : SchemaEval) (s s' : Sys) (c : Call) (oids : List V) (r : Reply)
-    (hp : OplogPlain s.catalog) (hr : Sys.step sch s c oids = .ok (s', r)) : ∃ es, Ext s.catalog s'.catalog es := by
+/-- every successful driver call, run on any transaction, returns the transaction itself or a dirty
+    one whose catalog extends the oplog by appended events only -/
+theorem runCall_step (sch : SchemaEval) (t0 t : Txn) (nu nu' : Nu) (c : Call) (r : Reply)
+    (hp : OplogPlain t0.catalog) (hr : runCall sch t0 nu c = .ok (t, nu', r)) : TStep t0 t := by
   cases c with
   | insertOne h doc =>
-    simp only [Sys.step] at hr
+    simp only [runCall] at hr
     split at hr
     · cases hr
     · rename_i t res nu1 hm
@@ -193,99 +194,99 @@ theorem Sys.step_ext (sch : SchemaEval) (s s' : Sys) (c : Call) (oids : List V) 
       · cases hr
       · split at hr
         · simp only [Except.ok.injEq, Prod.mk.injEq] at hr
-          exact hr.1 ▸ Sys.commit_ext s t nu1 (Txn.insert_step hm)
+          exact hr.1 ▸ Txn.insert_step hm
         · cases hr
   | insertMany h docs ordered =>
-    simp only [Sys.step] at hr
+    simp only [runCall] at hr
     split at hr
     · cases hr
     · rename_i t res nu1 hm
       simp only [Except.ok.injEq, Prod.mk.injEq] at hr
-      exact hr.1 ▸ Sys.commit_ext s t nu1 (Txn.insert_step hm)
+      exact hr.1 ▸ Txn.insert_step hm
   | find h q o =>
-    simp only [Sys.step] at hr
+    simp only [runCall] at hr
     split at hr
     · cases hr
     · split at hr
       · cases hr
       · simp only [Except.ok.injEq, Prod.mk.injEq] at hr
-        exact hr.1 ▸ ⟨[], Ext.refl _⟩
+        exact hr.1 ▸ .inl rfl
   | findOne h q o =>
-    simp only [Sys.step] at hr
+    simp only [runCall] at hr
     split at hr
     · cases hr
     · simp only [Except.ok.injEq, Prod.mk.injEq] at hr
-      exact hr.1 ▸ ⟨[], Ext.refl _⟩
+      exact hr.1 ▸ .inl rfl
     · split at hr
       · cases hr
       · simp only [Except.ok.injEq, Prod.mk.injEq] at hr
-        exact hr.1 ▸ ⟨[], Ext.refl _⟩
+        exact hr.1 ▸ .inl rfl
   | count h q skip limit =>
-    simp only [Sys.step] at hr
+    simp only [runCall] at hr
     split at hr
     · cases hr
     · simp only [Except.ok.injEq, Prod.mk.injEq] at hr
-      exact hr.1 ▸ ⟨[], Ext.refl _⟩
+      exact hr.1 ▸ .inl rfl
   | estCount h =>
-    simp only [Sys.step] at hr
+    simp only [runCall] at hr
     split at hr
     · cases hr
     · simp only [Except.ok.injEq, Prod.mk.injEq] at hr
-      exact hr.1 ▸ ⟨[], Ext.refl _⟩
+      exact hr.1 ▸ .inl rfl
   | distinct h field q =>
-    simp only [Sys.step] at hr
+    simp only [runCall] at hr
     split at hr
     · cases hr
     · simp only [Except.ok.injEq, Prod.mk.injEq] at hr
-      exact hr.1 ▸ ⟨[], Ext.refl _⟩
+      exact hr.1 ▸ .inl rfl
   | updateOne h q u upsert fs =>
-    simp only [Sys.step] at hr
+    simp only [runCall] at hr
     split at hr
     · cases hr
     · rename_i t res nu1 hm
       simp only [Except.ok.injEq, Prod.mk.injEq] at hr
-      exact hr.1 ▸ Sys.commit_ext s t nu1 (Txn.update_step hm)
+      exact hr.1 ▸ Txn.update_step hm
   | updateMany h q u upsert fs =>
-    simp only [Sys.step] at hr
+    simp only [runCall] at hr
     split at hr
     · cases hr
     · rename_i t res nu1 hm
       simp only [Except.ok.injEq, Prod.mk.injEq] at hr
-      exact hr.1 ▸ Sys.commit_ext s t nu1 (Txn.update_step hm)
+      exact hr.1 ▸ Txn.update_step hm
   | replaceOne h q repl upsert =>
-    simp only [Sys.step] at hr
+    simp only [runCall] at hr
     split at hr
     · cases hr
     · split at hr
       · cases hr
       · rename_i t res nu1 hm
         simp only [Except.ok.injEq, Prod.mk.injEq] at hr
-        exact hr.1 ▸ Sys.commit_ext s t nu1 (Txn.replace_step hm)
+        exact hr.1 ▸ Txn.replace_step hm
   | deleteOne h q =>
-    simp only [Sys.step] at hr
+    simp only [runCall] at hr
     split at hr
     · cases hr
     · rename_i t res nu1 hm
       simp only [Except.ok.injEq, Prod.mk.injEq] at hr
-      exact hr.1 ▸ Sys.commit_ext s t nu1 (Txn.delete_step hm)
+      exact hr.1 ▸ Txn.delete_step hm
   | deleteMany h q =>
-    simp only [Sys.step] at hr
+    simp only [runCall] at hr
     split at hr
     · cases hr
     · rename_i t res nu1 hm
       simp only [Except.ok.injEq, Prod.mk.injEq] at hr
-      exact hr.1 ▸ Sys.commit_ext s t nu1 (Txn.delete_step hm)
+      exact hr.1 ▸ Txn.delete_step hm
   | findOneAndDelete h q sort proj =>
-    simp only [Sys.step] at hr
+    simp only [runCall] at hr
     split at hr
     · cases hr
     · rename_i t res nu1 hm
       split at hr
       · cases hr
       · simp only [Except.ok.injEq, Prod.mk.injEq] at hr
-        exact hr.1 ▸ Sys.commit_ext s t nu1 (Txn.delete_step hm)
+        exact hr.1 ▸ Txn.delete_step hm
   | findOneAndReplace h q repl sort proj upsert after =>
-    simp only [Sys.step] at hr
+    simp only [runCall] at hr
     split at hr
     · cases hr
     · split at hr
@@ -294,101 +295,111 @@ theorem Sys.step_ext (sch : SchemaEval) (s s' : Sys) (c : Call) (oids : List V) 
         split at hr
         · cases hr
         · simp only [Except.ok.injEq, Prod.mk.injEq] at hr
-          exact hr.1 ▸ Sys.commit_ext s t nu1 (Txn.replace_step hm)
+          exact hr.1 ▸ Txn.replace_step hm
   | findOneAndUpdate h q u sort proj upsert after fs =>
-    simp only [Sys.step] at hr
+    simp only [runCall] at hr
     split at hr
     · cases hr
     · rename_i t res nu1 hm
       split at hr
       · cases hr
       · simp only [Except.ok.injEq, Prod.mk.injEq] at hr
-        exact hr.1 ▸ Sys.commit_ext s t nu1 (Txn.update_step hm)
+        exact hr.1 ▸ Txn.update_step hm
   | bulkWrite h models ordered =>
-    simp only [Sys.step] at hr
+    simp only [runCall] at hr
     split at hr
     · cases hr
     · split at hr
       · cases hr
       · rename_i t res nu1 hm
         simp only [Except.ok.injEq, Prod.mk.injEq] at hr
-        exact hr.1 ▸ Sys.commit_ext s t nu1 (Txn.bulk_step hm)
+        exact hr.1 ▸ Txn.bulk_step hm
   | createIndex h name config =>
-    simp only [Sys.step] at hr
+    simp only [runCall] at hr
     split at hr
     · cases hr
     · rename_i t name' hm
       simp only [Except.ok.injEq, Prod.mk.injEq] at hr
-      exact hr.1 ▸ Sys.commit_ext s t _ (Txn.createIndex_step hm)
+      exact hr.1 ▸ Txn.createIndex_step hm
   | dropIndex h name =>
-    simp only [Sys.step] at hr
+    simp only [runCall] at hr
     split at hr
     · cases hr
     · rename_i t hm
       simp only [Except.ok.injEq, Prod.mk.injEq] at hr
-      exact hr.1 ▸ Sys.commit_ext s t _ (Txn.dropIndex_step hm)
+      exact hr.1 ▸ Txn.dropIndex_step hm
   | dropAllIndexes h =>
-    simp only [Sys.step] at hr
+    simp only [runCall] at hr
     split at hr
     · cases hr
     · rename_i t hm
       simp only [Except.ok.injEq, Prod.mk.injEq] at hr
-      exact hr.1 ▸ Sys.commit_ext s t _ (Txn.dropIndex_step hm)
+      exact hr.1 ▸ Txn.dropIndex_step hm
   | dropIndexByKey h key =>
-    simp only [Sys.step] at hr
+    simp only [runCall] at hr
     split at hr
     · cases hr
     · rename_i t hm
       simp only [Except.ok.injEq, Prod.mk.injEq] at hr
-      exact hr.1 ▸ Sys.commit_ext s t _ (Txn.dropIndexByKey_step hm)
+      exact hr.1 ▸ Txn.dropIndexByKey_step hm
   | listIndexes h =>
-    simp only [Sys.step] at hr
+    simp only [runCall] at hr
     split at hr
     · cases hr
     · simp only [Except.ok.injEq, Prod.mk.injEq] at hr
-      exact hr.1 ▸ ⟨[], Ext.refl _⟩
+      exact hr.1 ▸ .inl rfl
   | createCollection h =>
-    simp only [Sys.step] at hr
+    simp only [runCall] at hr
     split at hr
     · cases hr
     · rename_i t hm
       simp only [Except.ok.injEq, Prod.mk.injEq] at hr
-      exact hr.1 ▸ Sys.commit_ext s t _ (Txn.create_step hm)
+      exact hr.1 ▸ Txn.create_step hm
   | dropCollection h =>
-    simp only [Sys.step] at hr
+    simp only [runCall] at hr
     split at hr
     · cases hr
     · rename_i t nu1 hm
       simp only [Except.ok.injEq, Prod.mk.injEq] at hr
-      exact hr.1 ▸ Sys.commit_ext s t _ (Txn.drop_step hm)
+      exact hr.1 ▸ Txn.drop_step hm
   | dropDatabase db =>
-    simp only [Sys.step] at hr
+    simp only [runCall] at hr
     split at hr
     · cases hr
     · rename_i t nu1 hm
       simp only [Except.ok.injEq, Prod.mk.injEq] at hr
-      exact hr.1 ▸ Sys.commit_ext s t _ (Txn.drop_step hm)
+      exact hr.1 ▸ Txn.drop_step hm
   | listCollections db q =>
-    simp only [Sys.step] at hr
+    simp only [runCall] at hr
     split at hr
     · cases hr
     · split at hr
       · cases hr
       · simp only [Except.ok.injEq, Prod.mk.injEq] at hr
-        exact hr.1 ▸ ⟨[], Ext.refl _⟩
+        exact hr.1 ▸ .inl rfl
   | listDatabases q =>
-    simp only [Sys.step] at hr
+    simp only [runCall] at hr
     split at hr
     · cases hr
     · simp only [Except.ok.injEq, Prod.mk.injEq] at hr
-      exact hr.1 ▸ ⟨[], Ext.refl _⟩
+      exact hr.1 ▸ .inl rfl
   | expire nowMs =>
-    simp only [Sys.step] at hr
+    simp only [runCall] at hr
     split at hr
     · cases hr
     · rename_i t n nu1 hm
       simp only [Except.ok.injEq, Prod.mk.injEq] at hr
-      exact hr.1 ▸ Sys.commit_ext s t _ (Txn.expire_step hp hm)
+      exact hr.1 ▸ Txn.expire_step hp hm
+
+/-- every successful driver call extends the oplog by appended events only -/
+theorem Sys.step_ext (sch : SchemaEval) (s s' : Sys) (c : Call) (oids : List V) (r : Reply)
+    (hp : OplogPlain s.catalog) (hr : Sys.step sch s c oids = .ok (s', r)) : ∃ es, Ext s.catalog s'.catalog es := by
+  unfold Sys.step at hr
+  split at hr
+  · cases hr
+  · rename_i t nu1 r1 hrun
+    simp only [Except.ok.injEq, Prod.mk.injEq] at hr
+    exact hr.1 ▸ Sys.commit_ext s t nu1 (runCall_step sch _ t _ nu1 c r1 hp hrun)
 
 /-! ## The oplog invariant -/
 
